@@ -54,8 +54,19 @@ T = {
  "C30b-deadline-scan-stops-at-disposed-instance": ("C30", "the offered-deadline scan stops at the first instance without a write time", ">= 2 instances written in order A, B; A disposed/unregistered; B idle for more than one period", []),
  "C32b-wait-loops-without-reregistering": ("C32", "WaitSet::wait loops on an empty trigger list without re-registering with its conditions", "the status is read (reset) by another task between the notification and the waiter's re-collection, then changes again", []),
  "C35b-subscriber-key-search-unbounded": ("C35", "the free subscriber key search has no end condition", "256 live subscribers in one participant and one more create_subscriber (the worker spins for ever)", []),
+ "C02b-replayed-gap-moves-watermark-back": ("C02", "a GAP processed after the reader is already past its end moves the highest-received watermark backwards", "best-effort reader that received a GAP (late joiner), a duplicate of that GAP arriving after later samples, then a stale duplicate of one of those samples", []),
+ "C17b-empty-remote-tag-accepted": ("C17", "a remote participant without domain tag parameter is accepted by a participant with a non-empty tag", "same domain id, local tag non-default, remote tag default / not transmitted", []),
+ "C18b-max-samples-checked-before-replacement": ("C18", "the max_samples check no longer credits the sample that KEEP_LAST is about to replace", "KEEP_LAST reader with finite max_samples, all instances full, one more sample for a full instance", ["C19"]),
+ "C20b-take-removal-after-sorting-indexes": ("C20", "take removes by binary search in an index list that was re-sorted into instance order", "take (not read) over >= 2 instances whose samples interleave in storage (A, B, A)", []),
+ "C26b-filter-parameter-sign-stripped": ("C26", "integer filter parameters lose their sign", "content filter on an int32 member with a negative parameter", []),
+ "C29b-repair-without-info-timestamp": ("C29", "repair DATA (answer to an ACKNACK) is sent without INFO_TS, so the reader-side lifespan check has no source timestamp", "first transmission lost, the repair delayed in the network beyond the sample's expiry", []),
+ "C33b-writer-mask-without-listener-falls-through": ("C33", "a writer whose mask enables PUBLICATION_MATCHED but has no listener object is skipped, the status falls through to the publisher / participant listener", "writer created with NO_LISTENER and a non-empty mask, a listener enabled at a higher level", []),
+ "C36b-content-filtered-topics-survive-delete-contained": ("C36", "delete_contained_entities keeps content-filtered topics whose related topic still exists at that moment (all of them)", "participant owning a content-filtered topic: delete_contained_entities then delete_participant", []),
 }
 NOTES = {
+ "C02b-replayed-gap-moves-watermark-back": "initially MISSED (no GAP ever occurred in best-effort user traffic): a late-joining volatile best-effort reader was added to the C02 scenario, after which it is caught",
+ "C29b-repair-without-info-timestamp": "initially MISSED (repairs were never delayed beyond expiry): path repair_delayed_in_network was added, after which it is caught",
+ "C33b-writer-mask-without-listener-falls-through": "initially MISSED (configurations with a mask but no listener object were excluded by an assumption): levels with a mask and a nil listener were added with the DDS no-op-listener rule, after which it is caught",
  "C28b-register-at-limit-not-idempotent": "initially MISSED: no writer had a finite max_instances; limited writers and a slot oracle were added, after which it is caught",
  "C30b-deadline-scan-stops-at-disposed-instance": "initially MISSED: one instance per writer and no dispose/unregister; several instances with dispose/unregister of some of them were added, after which it is caught",
  "C32b-wait-loops-without-reregistering": "initially MISSED: no second task ever reset the status between the notification and the waiter's re-collection; raced-reset episodes (gated waiters) were added, after which it is caught",
